@@ -114,6 +114,16 @@ def replay(ck, em, rec, rng):
             dd = np.asarray(dask.compute(lazy_d)[0]) / S2
             pd = np.asarray(dask.compute(lazy_p)[0])
             m.centroids_ = C.copy()
+            # two machines asked about the same samples, their lazy answers evaluated in ONE graph
+            m2 = em.KMeansMachine(K)
+            m2.centroids_ = C[::-1].copy() * 1.25 + 0.5 * S
+            j1, j2, q1, q2 = dask.compute(m.transform(Xd), m2.transform(Xd), m.predict(Xd), m2.predict(Xd))
+            e2 = np.asarray(m2.transform(X))
+            if not (allclose(np.asarray(j1) / S2, exp_d) and allclose(np.asarray(j2) / S2, e2 / S2) and np.array_equal(np.asarray(q1), exp_l)
+                    and np.array_equal(np.asarray(q2), np.asarray(m2.predict(X)))):
+                bad("DistancesAreSquaredEuclidean", "two machines on the same Dask samples computed in one graph: the second reports %s, "
+                    "alone it reports %s" % ((np.asarray(j2) / S2).tolist(), (e2 / S2).tolist()))
+                continue
         if dd.shape != exp_d.shape or not allclose(dd, exp_d):
             bad("DistancesAreSquaredEuclidean", "transform(dask %s): expected %s, observed %s" % (comp, exp_d.tolist(), dd.tolist()))
             continue
